@@ -145,6 +145,13 @@ def run(chk, args):
         c18_rig.run_rig_part(chk, args)
     else:
         chk.note("c18_rig not present: RemoteAddr() attribution part skipped")
+    # the proxy side: which client_ip the relay is told per session (spec/ProxySession ToldAddrRight), see notes/C18_proxy.md
+    try:
+        from checks import c18_proxy
+    except ImportError:
+        c18_proxy = None
+    if c18_proxy is not None:
+        c18_proxy.run_proxy_addr_part(chk, args)
     chk.cov["exhaustive"] = True
     chk.cov["traces_validated_against_impl"] += 0
 
@@ -155,6 +162,9 @@ def replay(chk, path):
     if rp.get("test") in ("TestVerifClientIDMap", "TestVerifClientAddr"):
         s = _inpkg(chk, rp["test"], [rp["case"]], "replay")
         chk.note("replayed 1 case: %s" % s)
+    elif rp.get("part") == "proxy-addr":
+        from checks import c18_proxy
+        c18_proxy.run_proxy_addr_part(chk, args)
     elif "scenario" in rp:
         from checks import c05, c18_rig
         import corerig
